@@ -96,6 +96,22 @@ prop(
     thorough=dict(checks=4000, shards=16),
 )
 
+VOCAB_RULE = ("values drawn from a hand-written vocabulary table of the Swagger 2.0 and JSON-Schema draft-4 meta-schemas (checked at start-up to cover exactly the meta-schemas' keywords) "
+              "for all object kinds, in normal form, with hostile member names (quotes, backslashes, control/non-ASCII characters, regex syntax, keyword look-alikes), zero-valued validations (35%), "
+              "vendor extensions, unknown schema keywords and free-form payloads (default/example/enum/examples/x-*) containing null, empty containers and nested mixtures; nesting depth <= 4. ")
+
+prop(
+    "C01",
+    title="JSON round-trip is lossless for the whole Swagger 2.0 vocabulary",
+    technique="property-based testing (rapid): vocabulary-driven normal-form documents, oracle = decode/encode/generic-decode round trip compared as JSON values (diff atoms); deterministic single-keyword sweep over every keyword of every kind in every run",
+    rule=VOCAB_RULE + "Every run first sweeps every (kind, flavour, keyword) alone on a minimal instance (3 value draws each), then draws random combinations for a random kind among the 15 decode targets. Non-trivial = instance has >=3 keywords or nesting depth >=2 or a hostile name / zero validation / extension; distinct by hash of kind+document",
+    design_ref="DESIGN.md §4 C01",
+    level_text="exploration: the single-keyword sweep covers every keyword of every kind in every run (so a dropped or mis-tagged member is found deterministically), random combinations and nesting add interaction coverage; the oracle lists every lost, invented or changed member as an atom",
+    level_note="the normal form is built into the generator exactly as the statement words it; $ref/$schema/id strings are drawn canonical (canonicalisation is C13's business); required strings are drawn empty in 1.5% of cases to keep known finding K5 visible, matched per atom",
+    quick=dict(checks=1500, shards=4),
+    thorough=dict(checks=15000, shards=16),
+)
+
 
 def manifest():
     allids = []
